@@ -308,6 +308,86 @@ func runC02(c *fw.Ctx) {
 			gradCheck(k, in, xs, mask, g, "")
 		})
 	}
+	// upstream weightings at the TOP of the range (up to 1.7e308) through operations whose vector-Jacobian product is no larger than
+	// the weighting itself: means, sums, shape operations, selections, contractive element-wise functions, the variance of two close
+	// values - an intermediate like 2*g must not be formed before the small factor is applied
+	for i := 0; i < c.Pick(500, 10000); i++ {
+		c.Case(func(k *fw.K) {
+			r := k.Rng
+			shape := RandShape(r, 1, 3, 3)
+			rank := len(shape)
+			x := Shuffled(r, Unique(r, shape, 0.2, 0.45)) // |x - mean| < 0.5 in every fibre
+			for i := range x.Data {
+				x.Data[i] = math.Abs(x.Data[i])
+			}
+			dim := r.Intn(rank)
+			var in ref.Instr
+			xs, mask := []*ref.T{x}, []bool{true}
+			switch r.Intn(12) {
+			case 0:
+				for shape[dim] != 2 { // the variance of TWO values: the factor 2/(n-1) is 2
+					shape[dim] = 2
+					x = Shuffled(r, Unique(r, shape, 0.2, 0.45))
+					for i := range x.Data {
+						x.Data[i] = math.Abs(x.Data[i])
+					}
+					xs = []*ref.T{x}
+				}
+				in = ref.Instr{Op: "varalong", Dim: dim}
+			case 1:
+				in = ref.Instr{Op: []string{"meanalong", "avgalong", "sumalong"}[r.Intn(3)], Dim: dim}
+			case 2:
+				in = ref.Instr{Op: "scale", F: []float64{0.5, -1, 1, -0.25}[r.Intn(4)]}
+			case 3:
+				in = ref.Instr{Op: []string{"tanh", "sin", "cos"}[r.Intn(3)]}
+			case 4:
+				in = ref.Instr{Op: "reshape", Shape: []int{len(x.Data)}}
+			case 5:
+				in = ref.Instr{Op: "slice", Index: []ref.Range{{From: 0, To: 1}}}
+			case 6:
+				in = ref.Instr{Op: []string{"sub", "add"}[r.Intn(2)]}
+				xs, mask = []*ref.T{x, Shuffled(r, Unique(r, shape, 1, 2))}, []bool{true, true}
+			case 7:
+				in = ref.Instr{Op: "mul"}
+				xs, mask = []*ref.T{x, Shuffled(r, Unique(r, shape, 0.1, 0.9))}, []bool{true, false}
+			case 8:
+				in = ref.Instr{Op: []string{"elmax", "elmin"}[r.Intn(2)]}
+				xs, mask = []*ref.T{x, Shuffled(r, Unique(r, shape, 1, 2))}, []bool{true, true}
+			case 9:
+				in = ref.Instr{Op: "concat", Dim: dim}
+				xs, mask = []*ref.T{x, Shuffled(r, Unique(r, shape, 1, 2))}, []bool{true, true}
+			case 10:
+				in = ref.Instr{Op: "unsqueeze", Dim: r.Intn(rank + 1)}
+			default:
+				if fibresSeparated(x, dim, 1e-3) {
+					in = ref.Instr{Op: []string{"maxalong", "minalong"}[r.Intn(2)], Dim: dim}
+				} else {
+					in = ref.Instr{Op: "flatten", Dim: dim}
+				}
+			}
+			y, err := ref.Apply(in, xs)
+			if err != nil {
+				k.Failf("harness: %v", err)
+				return
+			}
+			g := ref.Zeros(y.Shape)
+			for i := range g.Data {
+				g.Data[i] = []float64{1, -1}[r.Intn(2)] * (0.55 + 0.4*r.Float64()) * 1.7e308
+				if r.Intn(5) == 0 {
+					g.Data[i] = 0
+				}
+			}
+			if in.Op == "sumalong" || in.Op == "add" || in.Op == "sub" || in.Op == "concat" { // a share per consumer is added: keep the sum of two in range
+				for i := range g.Data {
+					g.Data[i] /= 2
+				}
+			}
+			k.Case = gcase{In: in, Ops: xs, Tracked: mask, G: g}
+			k.Key("huge-weighting/%s/%s", in.Op, shapeKey(shape))
+			k.Count("cases_with_upstream_weightings_near_the_top_of_the_range", 1)
+			gradCheck(k, in, xs, mask, g, "")
+		})
+	}
 	// Concat over MANY operands (up to 130: beyond the width of any machine word used as an operand mask), tracked operands at
 	// late positions, one operand object at several positions
 	for i := 0; i < c.Pick(60, 1200); i++ {
@@ -345,6 +425,7 @@ func runC02(c *fw.Ctx) {
 	// the same UNTRACKED operand object serves two applications, each back-propagated before the next is built
 	for i := 0; i < c.Pick(1500, 30000); i++ {
 		c.Case(func(k *fw.K) { c02Reuse(k) })
+		c.Case(func(k *fw.K) { c02Rearmed(k) })
 	}
 	// groups of different same-rank shapes that collide under ad-hoc cache keys: each case runs the same
 	// operation on every shape of the group, one after the other, in one process
@@ -775,6 +856,90 @@ func c02Accepted(k *fw.K) {
 				return
 			}
 		}
+	}
+}
+
+// c02Rearmed: a tensor is first an UNTRACKED constant of an application whose graph is back-propagated, then it is made a tracked leaf
+// (ResetGradContext(true) - nothing tracked and not yet back-propagated depends on it) and the SAME single-operand operation is applied
+// to it again: the second application is an ordinary application on a tracked operand.
+func c02Rearmed(k *fw.K) {
+	r := k.Rng
+	shape := RandShape(r, 1, 3, 3)
+	rank := len(shape)
+	uv := Shuffled(r, Unique(r, shape, 0.3, 2))
+	var ins []ref.Instr
+	for _, op := range []string{"tanh", "exp", "sin"} {
+		ins = append(ins, ref.Instr{Op: op})
+	}
+	ins = append(ins, ref.Instr{Op: "scale", F: -1.5}, ref.Instr{Op: "pow", F: 2}, ref.Instr{Op: "reshape", Shape: []int{len(uv.Data)}},
+		ref.Instr{Op: "flatten", Dim: r.Intn(rank)}, ref.Instr{Op: "unsqueeze", Dim: r.Intn(rank + 1)}, ref.Instr{Op: "slice"},
+		ref.Instr{Op: "slice", Index: []ref.Range{{From: 0, To: 1}}}, ref.Instr{Op: "sumalong", Dim: r.Intn(rank)}, ref.Instr{Op: "meanalong", Dim: r.Intn(rank)})
+	if rank >= 2 {
+		ins = append(ins, ref.Instr{Op: "transpose"}, ref.Instr{Op: "transpose"})
+	}
+	if d := r.Intn(rank); fibresSeparated(uv, d, 1e-2) {
+		ins = append(ins, ref.Instr{Op: "maxalong", Dim: d})
+	}
+	in := ins[r.Intn(len(ins))]
+	u := rt.MustLeaf(uv, false)
+	k.Case = gcase{In: in, Ops: []*ref.T{uv}, Tracked: []bool{true}}
+	k.Key("rearmed-constant/%s/%s", in.Op, shapeKey(shape))
+	k.Count("constants_re_armed_between_two_applications", 1)
+	y, err := ref.Apply(in, []*ref.T{uv})
+	if err != nil {
+		k.Failf("harness: %v", err)
+		return
+	}
+	// application 1: u is a constant; the result is consumed by a tracked multiplication that is back-propagated
+	wv := Shuffled(r, Unique(r, y.Shape, 0.5, 2))
+	w := rt.MustLeaf(wv, true)
+	if p := call(func() {
+		var v, z tensor.Tensor
+		if v, err = rt.Exec(in, []tensor.Tensor{u}); err == nil {
+			if z, err = v.Mul(w); err == nil {
+				err = tensor.BackPropagate(z)
+			}
+		}
+	}); p != nil || err != nil {
+		k.Failf("%s on an untracked constant inside a back-propagated graph: panic=%v err=%v", in.Op, p, err)
+		return
+	}
+	if e := rt.Compare(w.Gradient(), y, 1e-12, 1e-12, nil, 0); e != nil {
+		k.Failf("%s(constant) * w: gradient of w: %v", in.Op, e)
+		return
+	}
+	if u.Gradient() != nil {
+		k.Failf("%s: the untracked constant received a gradient", in.Op)
+		return
+	}
+	// application 2: the same object, now a tracked leaf
+	u.ResetGradContext(true)
+	g := randG(k, y.Shape)
+	var v2 tensor.Tensor
+	if p := call(func() {
+		if v2, err = rt.Exec(in, []tensor.Tensor{u}); err == nil {
+			err = weightedBackprop(v2, g)
+		}
+	}); p != nil || err != nil {
+		k.Failf("%s on a tensor that was re-armed after serving as a constant: panic=%v err=%v", in.Op, p, err)
+		return
+	}
+	if e := rt.Compare(v2, y, 1e-12, 1e-12, nil, 0); e != nil {
+		k.Failf("%s on a tensor that was re-armed after serving as a constant: forward value: %v", in.Op, e)
+		return
+	}
+	gr := u.Gradient()
+	if gr == nil {
+		k.Failf("%s applied to a tensor that served as an untracked constant of an earlier, back-propagated application and was then made a tracked leaf: no gradient", in.Op)
+		return
+	}
+	got, err := rt.Read(gr)
+	if err != nil {
+		k.Failf("%s: gradient unreadable: %v", in.Op, err)
+		return
+	}
+	if e := gradClose(got, ref.VJP(in, []*ref.T{uv}, y, g, ref.RuleSum)[0]); e != nil {
+		k.Failf("%s applied to a re-armed former constant: gradient: %v", in.Op, e)
 	}
 }
 
